@@ -39,7 +39,9 @@ pub mod hist {
 
 def hist_defs():
     a = Def('hist_a', skips=[R(' +')], extras='usize', variants=[Var('Word', [R('[a-z]+')]), Var('Num', [R('[0-9]+')]),
-                                                                  Var('E', [T('é')])])
+                                                                  Var('E', [T('é')]),
+                                                                  # an error that dies inside a later multi-byte character
+                                                                  Var('H', [R('#[à-ÿ]+:')])])
     b = Def('hist_b', extras='usize', variants=[Var('Any', [R('[a-z0-9 ]')]), Var('Ab', [T('ab')])])
     c = Def('hist_c', utf8=False, skips=[R(b' +')], extras='usize', variants=[Var('Word', [R(b'[a-z]+')]), Var('Hi', [R(b'[\x80-\xFF]')])])
     return [a, b, c]
